@@ -814,7 +814,7 @@ func drawC20Weights(t *rapid.T) C20Case {
 		if rapid.Bool().Draw(t, "deepClasses") {
 			// class paths of every depth from 1 to 8 (the universe file imposes no limit), several commodities per class
 			classes = []string{"Equities", "Equities:US", "Equities:US:Tech", "Equities:EU:Large:Value", "Alternatives:Crypto:L1:PoS:Major",
-				"Real:Estate:CH:ZH:City:Core", "Funds:Active:Global:Multi:Asset:Balanced:Growth", "Cash:Bank:CH:Retail:Sight:Salary:Main:Sub"}
+				"Real:Estate:CH:ZH:City:Core", "Funds:Active:Global:Multi:Asset:Balanced:Growth", "Cash:Bank:Swiss:Retail:Sight:Salary:Main:Sub"}
 			classes = classes[rapid.IntRange(0, 5).Draw(t, "classFrom"):]
 		}
 		c.Universe = map[string][]string{}
